@@ -116,24 +116,26 @@ Proof.
 Qed.
 
 (* ================================================================== leaf index -> node index, node count *)
+(* both proofs are semantic (linear arithmetic over the unfolded wrap-around operators), so that harmless
+   rewrites of the source expression are re-proved automatically *)
+Ltac word_arith :=
+  cbv zeta; unfold mul_ok, sub_ok, add_ok, wmul, wsub, wadd, wrap; pow_lits;
+  rewrite ?andb_true_iff, ?Z.ltb_lt, ?Z.leb_le; lia.
+
 Lemma leaf_index_to_node_index_val i : 0 <= i < 2 ^ 63 ->
   leaf_index_to_node_index_ok i = true /\ leaf_index_to_node_index i = 2 * i - count_ones i + 1.
 Proof.
-  intros Hi. unfold leaf_index_to_node_index_ok, leaf_index_to_node_index. cbv zeta.
+  intros Hi. unfold leaf_index_to_node_index_ok, leaf_index_to_node_index.
   pose proof (count_ones_nonneg i). pose proof (count_ones_le_self i ltac:(lia)).
-  unfold mul_ok, sub_ok, add_ok, wmul, wsub, wadd, wrap. pow_lits.
-  rewrite !Z.mod_small by (rewrite ?Z.mod_small by lia; lia).
-  split; [lia|reflexivity].
+  generalize dependent (count_ones i). intros c Hc0 Hc. pow_lits. split; word_arith.
 Qed.
 
 Lemma num_leafs_to_num_nodes_val n : 0 <= n < 2 ^ 63 ->
   num_leafs_to_num_nodes_ok n = true /\ num_leafs_to_num_nodes n = 2 * n - count_ones n.
 Proof.
-  intros Hi. unfold num_leafs_to_num_nodes_ok, num_leafs_to_num_nodes. cbv zeta.
+  intros Hi. unfold num_leafs_to_num_nodes_ok, num_leafs_to_num_nodes.
   pose proof (count_ones_nonneg n). pose proof (count_ones_le_self n ltac:(lia)).
-  unfold mul_ok, sub_ok, wmul, wsub, wrap. pow_lits.
-  rewrite !Z.mod_small by (rewrite ?Z.mod_small by lia; lia).
-  split; [lia|reflexivity].
+  generalize dependent (count_ones n). intros c Hc0 Hc. pow_lits. split; word_arith.
 Qed.
 
 (* ================================================================== leftmost ancestor *)
@@ -310,7 +312,7 @@ Proof.
   pose proof (count_ones_nonneg q) as Cq. pose proof (count_ones_nonneg (n - a - 2 ^ hz)) as Cr.
   pose proof (count_ones_lt64 n ltac:(lia)) as Cn.
   unfold leaf_index_to_mt_index_and_peak_index_ok, leaf_index_to_mt_index_and_peak_index. cbv zeta.
-  unfold ilog2. rewrite XL.
+  unfold ilog2. rewrite ?(Z.lxor_comm n i). rewrite XL.
   assert (E2 : wrap 64 (2 ^ hz) = 2 ^ hz) by (apply wrap_small; lia). rewrite E2.
   assert (E3 : wsub 64 (2 ^ hz) 1 = 2 ^ hz - 1) by (apply wsub64_small; lia). rewrite E3.
   rewrite land_ones_mod by lia. rewrite M1.
